@@ -116,7 +116,7 @@ PROPS = {
         trusted=COMMON_TRUST),
     'C19': dict(
         groups=['view'],
-        rules=['SER-1', 'SER-3'],
+        rules=['SER-1', 'SER-3', 'SER-4'],
         level='other',
         technique='static analysis of MIR of the derive output: field-name constants of serialize_field vs. names accepted by the generated field visitor vs. declared fields; aggregate provenance in visit_seq/visit_map; field coverage of PartialEq',
         level_text='Complete modulo trusted serde_derive/serde for the 6 derived types: every declared field is serialised exactly once under its own name, the deserialiser accepts exactly those names and rebuilds every field from the input, and equality of owned records compares every field. skip/rename/default attributes, conversion attributes (from/try_from/into) or a hand-written impl change the analysed shape and are reported.',
